@@ -4,6 +4,8 @@
 package main
 
 import (
+	"fmt"
+
 	"verifharness/lib/dbh"
 	"verifharness/lib/vlib"
 )
@@ -21,10 +23,72 @@ func main() {
 		Weights: w, CheckEvery: 8,
 		KPrefixes: []string{"KCompact"}, KCapQuick: 200, KCapThor: 900, KPerRun: 6,
 		NonTrivial: func(s map[string]int) bool { return s["table_compactions"] >= 1 && s["op_snap"] >= 1 },
+		Directed: func(r *vlib.RNG, i int) *dbh.Program {
+			if i%24 != 3 {
+				return nil
+			}
+			return longHeld(r)
+		},
 		TweakCfg: func(r *vlib.RNG, c *dbh.Cfg) {
 			if c.WriteBuffer > 8192 {
 				c.WriteBuffer = 4096
 			}
 		},
 	})
+}
+
+// longHeld: "however long it is held" — an iterator (and a snapshot) created over a multi-table tree, parked on its
+// first entries while far more than 256 later versions are installed (the reference loop converts versions that old
+// from delta bookkeeping to per-file references), then walked to the end: every entry must still be the creation-time one.
+func longHeld(r *vlib.RNG) *dbh.Program {
+	cfg := dbh.DefaultishCfg()
+	// level 1 may hold everything (no size-triggered moves to level 2 racing with the iterator's creation)
+	cfg.WriteBuffer, cfg.TableSize, cfg.TotalSize, cfg.L0Trigger = 4096, 1024, 1<<20, 4
+	// no seek-triggered compactions: the reads of the periodic checks must not start the compaction before the iterator exists
+	cfg.DisableSeeks = true
+	var pool []dbh.HexBytes
+	for i := 0; i < 150; i++ {
+		pool = append(pool, []byte(fmt.Sprintf("lh%04d", i*7)))
+	}
+	p := &dbh.Program{Cfg: cfg, Pool: pool}
+	val := func(tag int) dbh.HexBytes {
+		v := []byte(fmt.Sprintf("%d:", tag))
+		for len(v) < 60+tag%50 {
+			v = append(v, byte('a'+len(v)%26))
+		}
+		return v
+	}
+	tag := 0
+	for _, k := range pool {
+		tag++
+		p.Ops = append(p.Ops, dbh.Op{Kind: dbh.OpPut, K: k, V: val(tag)})
+	}
+	p.Ops = append(p.Ops, dbh.Op{Kind: dbh.OpCompact})
+	for i := 0; i < 12; i++ {
+		tag++
+		p.Ops = append(p.Ops, dbh.Op{Kind: dbh.OpPut, K: pool[r.Intn(len(pool))], V: val(tag)})
+	}
+	// reopen: the journal is flushed into a level-0 table by the recovery and the write buffer is empty, so the first
+	// version installed after the iterator exists is the table compaction below (it deletes tables the iterator
+	// has not opened yet), not a flush
+	if r.Chance(3, 4) {
+		p.Ops = append(p.Ops, dbh.Op{Kind: dbh.OpReopen})
+	}
+	p.Ops = append(p.Ops, dbh.Op{Kind: dbh.OpWaitIdle}, dbh.Op{Kind: dbh.OpSnap}, dbh.Op{Kind: dbh.OpIterOpen}, dbh.Op{Kind: dbh.OpIterStep}, dbh.Op{Kind: dbh.OpCompact})
+	rounds := r.Range(150, 190)
+	for i := 0; i < rounds; i++ {
+		tag++
+		k := pool[r.Intn(len(pool))]
+		if r.Chance(1, 4) {
+			p.Ops = append(p.Ops, dbh.Op{Kind: dbh.OpDelete, K: k})
+		} else {
+			p.Ops = append(p.Ops, dbh.Op{Kind: dbh.OpPut, K: k, V: val(tag)})
+		}
+		p.Ops = append(p.Ops, dbh.Op{Kind: dbh.OpCompact})
+	}
+	for i := 0; i < 55; i++ {
+		p.Ops = append(p.Ops, dbh.Op{Kind: dbh.OpIterStep})
+	}
+	p.Ops = append(p.Ops, dbh.Op{Kind: dbh.OpSnapRead}, dbh.Op{Kind: dbh.OpIterClose}, dbh.Op{Kind: dbh.OpSnapRelease}, dbh.Op{Kind: dbh.OpCheckAll})
+	return p
 }
